@@ -186,6 +186,45 @@ def run_binding():
         failures.append("binding: an edge with a falsified expectation was not reported by the replay")
     else:
         log("  binding: falsified edge expectation is reported (ok)")
+    # (c) a long walk of the index containers: accepted as recorded; rejected with one probe answer, one heap
+    #     figure or one iterator window falsified
+    tr = os.path.join(wd, "walk.ndjson")
+    rc, o = sh([BIN["dev"], "ic-walk", "--seed", "9", "--runs", "6", "--len", "600", "--out", tr])
+    if rc != 0:
+        failures.append("ic-walk failed in self-test: " + o[-300:])
+    else:
+        events = [json.loads(l) for l in open(tr)]
+
+        def validate_ic(evts, label):
+            p = os.path.join(wd, label + ".ndjson")
+            open(p, "w").write("\n".join(json.dumps(e) for e in evts) + "\n")
+            outp = os.path.join(wd, label + ".out")
+            with open(outp, "w") as f:
+                subprocess.run(["java", "-Xss256m", "-cp", JAR, "tlc2.TLC", "-workers", "1", "-metadir", os.path.join(wd, "meta"),
+                                "-cleanup", "-noGenerateSpecTE", "-config", os.path.join(SPEC, "TraceIC.cfg"), "TraceIC.tla"],
+                               cwd=SPEC, stdout=f, stderr=subprocess.STDOUT, env=dict(os.environ, TRACE=p), timeout=300)
+            text = open(outp).read()
+            return set(re.findall(r'why\\":\\"([a-z-]+)', text)), '<<"DONE"' in text
+
+        whys, done = validate_ic(events, "walk-good")
+        if whys or not done:
+            failures.append("binding: the unmodified index walk is not accepted (%s, done=%s)" % (whys, done))
+        for label, pick, mutate, want in [
+            ("walk-probe", lambda e: e["ev"] == "probe", lambda e: e["v"].__setitem__(0, (e["v"][0] + 1) % 65536), "index-differs"),
+            ("walk-used", lambda e: e["ev"] == "push" and e.get("obs") and e.get("used", 0) > 0,
+             lambda e: e.__setitem__("used", e["used"] + 4), "heap-bytes-differ-from-documented-cost"),
+            ("walk-iter", lambda e: e["ev"] == "iter" and len(e["vs"]) > 1, lambda e: e.__setitem__("vs", e["vs"][1:]), "iteration-differs"),
+        ]:
+            bad = json.loads(json.dumps(events))
+            hit = [e for e in bad if pick(e)]
+            if not hit:
+                failures.append("binding: the self-test walk has no event for " + label)
+                continue
+            mutate(hit[len(hit) // 2])
+            whys, done = validate_ic(bad, label)
+            if want not in whys:
+                failures.append("binding: %s was accepted by TraceIC (%s)" % (label, whys))
+        log("  binding: falsified index-walk answers are rejected (ok)" if not [f for f in failures if "walk" in f] else "  binding: index walk FAILED")
     shutil.rmtree(wd, ignore_errors=True)
     return failures
 
